@@ -3,8 +3,10 @@ package main
 import (
 	"crypto/sha1"
 	"encoding/hex"
+	"encoding/json"
 	"fmt"
 	"math/rand"
+	"os"
 	"sort"
 )
 
@@ -32,7 +34,18 @@ type RunResult struct {
 	Orig    []Tok // ops as given (before the machine filled in oracle fields)
 }
 
+// crashFile: when set, every history is written there (as a replayable finding) before the
+// implementation runs it, so that a history on which the implementation takes the whole process
+// down (fatal out-of-memory, stack exhaustion, deadlock) is still reported with its replay.
+var crashFile string
+
 func RunImpl(m Machine, c *Case) *RunResult {
+	if crashFile != "" {
+		b, _ := json.Marshal(Finding{Kind: "crash", Sig: "process-aborted", Machine: m.ID(),
+			Desc:    "the implementation aborted the whole process while running this history",
+			ImplOps: TL(c.Ops...).String(), OpsN: len(c.Ops)})
+		os.WriteFile(crashFile, b, 0644)
+	}
 	m.Reset()
 	r := &RunResult{Orig: c.Ops}
 	for _, op := range c.Ops {
@@ -88,7 +101,7 @@ type Finding struct {
 	Step    int    `json:"step"`
 	Impl    string `json:"impl,omitempty"`
 	Model   string `json:"model,omitempty"`
-	Case    string `json:"case"` // shrunk case token as sent to the model
+	Case    string `json:"case"`     // shrunk case token as sent to the model
 	ImplOps string `json:"impl_ops"` // the ops as executed on the implementation (replayable)
 	OpsN    int    `json:"ops"`
 }
@@ -159,9 +172,9 @@ func bucket(n int) string {
 
 // Checker bundles everything needed to run, diff, monitor and shrink cases of one machine.
 type Checker struct {
-	M        Machine
-	Model    *ModelDriver
-	Monitors []Monitor
+	M         Machine
+	Model     *ModelDriver
+	Monitors  []Monitor
 	OMonitors []OMonitor
 	// KnownSigs: monitor signatures of recorded findings (still reported, but as known).
 	Findings []Finding
@@ -170,9 +183,9 @@ type Checker struct {
 	OpName   func(Tok) string
 	MaxFind  int
 	// SkipModel: ops for which model comparison is skipped (never used for claimed projections).
-	NoModel bool
+	NoModel   bool
 	SigPrefix string
-	hasCorr bool // one (shrunk) correspondence finding per suite is enough
+	hasCorr   bool // one (shrunk) correspondence finding per suite is enough
 }
 
 func (c *Checker) mismatch(cs *Case) (int, string, string, *RunResult) {
@@ -311,7 +324,7 @@ func (c *Checker) Check(cs *Case, nontrivial func(*RunResult) bool) {
 type Gen struct {
 	R     *rand.Rand
 	Small bool // keep states small (all-prefix sweeps are quadratic in the image size)
-	Tweak int // 0 none; k>0: change the k-th constructor parameter (used to build near-twins)
+	Tweak int  // 0 none; k>0: change the k-th constructor parameter (used to build near-twins)
 	Wide  bool // Count-Min: rarely draw rows wider than 4096 cells (Redis script chunking / unpack limits)
 }
 
@@ -337,7 +350,18 @@ func (g *Gen) ElementPool(n int, allowEmpty bool) [][]byte {
 	}
 	for len(pool) < n {
 		var b []byte
-		switch g.Intn(6) {
+		switch g.Intn(7) {
+		case 6: // longer than any fixed-size scratch buffer an implementation might copy keys into
+			l := g.Pick(33, 64, 65, 66, 100, 129, 257, 300+g.Intn(200))
+			b = make([]byte, l)
+			if g.Chance(0.5) {
+				g.R.Read(b)
+			} else { // long keys sharing a long prefix: they differ only near the end
+				for i := range b {
+					b[i] = byte('a' + i%26)
+				}
+				b[l-1-g.Intn(3)] = byte('0' + g.Intn(10))
+			}
 		case 0:
 			b = []byte{byte(g.Intn(256))}
 		case 1:
@@ -380,4 +404,23 @@ func wide(gen func(g *Gen, tier string) *Case) func(g *Gen, tier string) *Case {
 		defer func() { g.Wide = false }()
 		return gen(g, tier)
 	}
+}
+
+// el hands an element to the implementation the way a caller with one reusable buffer does (a
+// bufio.Scanner's token, a pooled buffer): every call passes a view of the SAME backing array,
+// refilled for each call. An implementation that keeps the slice it was given instead of what it
+// read from it then sees later contents — the model and the monitors keep the values themselves.
+var callerBuf = make([]byte, 1<<16)
+var callerUsed int
+
+func el(b []byte) []byte {
+	if b == nil || len(b) > len(callerBuf) {
+		return b
+	}
+	for i := 0; i < callerUsed; i++ {
+		callerBuf[i] = 0xA5
+	}
+	callerUsed = len(b)
+	copy(callerBuf, b)
+	return callerBuf[:len(b):len(b)]
 }
